@@ -13,7 +13,7 @@ def present(jobs, pres_seed, name="job"):
     """Returns (list of PVEvent lists, description dict)."""
     rng = random.Random(pres_seed)
     d = {}
-    style = rng.choice(["uuid", "short", "long"])
+    style = rng.choice(["uuid", "short", "long", "local"])
     d["ids"] = style
     order = list(range(len(jobs)))
     if rng.random() < 0.8:
